@@ -4,6 +4,7 @@ package main
 
 import (
 	"fmt"
+	"regexp"
 	"go/scanner"
 	"go/token"
 	"os"
@@ -81,6 +82,8 @@ func (e *SExpr) String() string {
 	return "?"
 }
 
+var roleAtRe = regexp.MustCompile(`\$[A-Za-z]+@[0-9]+(\.[0-9]+)*`)
+
 type tok struct {
 	t   token.Token
 	lit string
@@ -99,6 +102,10 @@ func tokenize(src string) ([]tok, error) {
 	var s scanner.Scanner
 	var errs []string
 	// '$' and '?' are illegal for go/scanner; we pre-substitute '$' by a marker identifier prefix.
+	src = roleAtRe.ReplaceAllStringFunc(src, func(m string) string {
+		i := strings.Index(m, "@")
+		return m[:i] + "ǁ" + strings.ReplaceAll(m[i+1:], ".", "ǀ")
+	})
 	src2 := strings.ReplaceAll(src, "$", "ǂ")
 	f = fset.AddFile("", fset.Base(), len(src2))
 	s.Init(f, []byte(src2), func(pos token.Position, msg string) { errs = append(errs, msg) }, 0)
@@ -113,6 +120,8 @@ func tokenize(src string) ([]tok, error) {
 		}
 		if t == token.IDENT {
 			lit = strings.ReplaceAll(lit, "ǂ", "$")
+			lit = strings.ReplaceAll(lit, "ǁ", "@")
+			lit = strings.ReplaceAll(lit, "ǀ", ".")
 		}
 		out = append(out, tok{t, lit, int(pos)})
 	}
